@@ -16,7 +16,7 @@ from asm import asm
 from diffcore import Case, Input
 
 M = (1 << 256) - 1
-KEY_DOM = [0, 1, 2]
+KEY_DOM = [0, 1, 2, 0xA11CE00000000000000000000000000000001001]  # the last one: a key whose hash is in none of halmos' precomputed tables
 IDX_DOM = [0, 1, 2, 2**16 - 1, 2**16, 2**16 + 1]
 
 
@@ -69,6 +69,8 @@ class LocGen:
         r = self.r
         if kind == "key":
             return ("cd", r.choice([0, 1])) if r.random() < 0.7 else ("const", r.choice(KEY_DOM))
+        if kind == "smallkey":  # nested-array indices: small constants only (see the note on concrete indices below)
+            return ("cd", r.choice([0, 1])) if r.random() < 0.7 else ("const", r.choice(KEY_DOM[:3]))
         # concrete indices stay below 2^16 - 3: halmos' reverse hash lookup only recognises hash + delta for
         # |delta| < 2^16 (known finding, probed separately); symbolic indices range over the whole domain
         if r.random() < 0.65:
@@ -100,7 +102,7 @@ class LocGen:
         if k < 0.92:
             # a[i][j] of a nested dynamic array: keccak(keccak(slot) + i) + j ; small slots / indices so that it can meet a mapping cell m[k]
             # in the decoded (generic-layout) index space: k == slot(a), slot(m) == i, j == 0
-            return ("arr2", r.randrange(0, 3), self.keyref(), self.keyref())
+            return ("arr2", r.randrange(0, 3), self.keyref("smallkey"), self.keyref("smallkey"))
         # packed keys are always symbolic here: halmos decodes keccak(bytesN(key) . slot) as a mapping only when the
         # pre-image still is a concat term; a concrete key folds to a constant and is treated as an unrelated scalar
         # slot (known finding, probed separately)
@@ -234,7 +236,9 @@ def make_storage_case(rng, transient=False, overrides=None):
     if rng.random() < 0.6:
         l0 = rng.choice(locs)
         if l0[0] == "map":
-            locs.append(("map", l0[1], g.keyref()))
+            # the same mapping through a symbolic key and through a constant key (hashed at run time from concrete data)
+            other = ("const", rng.choice([KEY_DOM[-1], KEY_DOM[-1], 1])) if l0[2][0] == "cd" and rng.random() < 0.6 else g.keyref()
+            locs.append(("map", l0[1], other))
         elif l0[0] == "arr":
             locs.append(("arr", l0[1], g.keyref("idx"), rng.choice([0, 1] + ([-1] if g.layout == "solidity" else []))))
         elif l0[0] == "mapstruct":
@@ -242,8 +246,8 @@ def make_storage_case(rng, transient=False, overrides=None):
         elif l0[0] == "map2":
             locs.append(("map2", l0[1], g.keyref(), g.keyref()))
         elif l0[0] == "arr2":
-            locs.append(("map", rng.choice(KEY_DOM), g.keyref()))
-            locs.append(("arr2", l0[1], g.keyref(), g.keyref()))
+            locs.append(("map", rng.choice(KEY_DOM[:3]), g.keyref()))
+            locs.append(("arr2", l0[1], g.keyref("smallkey"), g.keyref("smallkey")))
     # distinct Solidity variables have distinct slots: halmos' decoder (like solc) assumes one type per slot, so a nested array never
     # shares its base slot with a mapping / array / scalar
     a2 = {l[1] for l in locs if l[0] == "arr2"}
@@ -253,6 +257,11 @@ def make_storage_case(rng, transient=False, overrides=None):
     toks = []
     nout = 0
     ST, LD = ("TSTORE", "TLOAD") if transient else ("SSTORE", "SLOAD")
+    if rng.random() < 0.35:
+        # a symbolic fork before any hash has been computed, both sides continuing with the same code: the second path explored hashes
+        # the same (concrete) preimages for the first time again — whatever the first path registered must not be missing or stale on it
+        toks += [68, "CALLDATALOAD", 1, "AND", "@forked", "JUMPI", ":forked"]  # bit 0 of the index word: both values occur in the input domain
+        g.features.add("fork-before-first-hash")
     if rng.random() < 0.3:
         # an early, discarded read through a hard-coded constant keccak(slot) + d of an array whose hash has not been computed yet on this path
         # (unrecognised at that moment: it reads the untouched scalar slot, 0); once the hash has been computed at run time, the very same
